@@ -9,7 +9,11 @@ from fractions import Fraction
 from cmv.oracles import csscolor
 
 OPAQUE_KINDS = ["hex6", "HEX6", "hex6n", "hex3", "hex3n", "rgb", "rgb_tight", "RGB", "rgbpct",
-                "hsl", "HSL", "keyword", "tuple", "list", "ntuple", "tuplesub", "listsub"]
+                "hsl", "HSL", "keyword", "tuple", "list", "ntuple", "tuplesub", "listsub",
+                # further tuple forms the library's reader accepts (color_parser: 3-component branch): fractions of full
+                # scale as floats, 0-255 floats, numeric strings, percentage strings, (hue, s, l) with float s and l; and
+                # the informal comma list
+                "frac_tuple", "float_tuple", "str_tuple", "pct_tuple", "hsl_tuple", "informal3"]
 
 import collections
 
@@ -23,13 +27,19 @@ class TupleSub(tuple):
 class ListSub(list):
     pass
 TRANSLUCENT_KINDS = ["rgba", "hsla", "rgba_tuple", "rgba_list"]
+# alpha carried by spellings whose *detected* format is not rgba/hsla: rgb() with a fourth component (legacy comma form,
+# CSS Color 4 slash form, percentage alpha) and the informal list
+TRANSLUCENT_KINDS_X = ["rgb4", "rgbslash", "rgbslashpct", "informal4"]
 
 # what make_readable must give back for each input kind
 OUT_KIND = {"hex6": "hex", "HEX6": "hex", "hex6n": "hex", "hex3": "hex", "hex3n": "hex",
             "rgb": "rgb", "rgb_tight": "rgb", "RGB": "rgb", "rgbpct": "rgb",
             "hsl": "hsl", "HSL": "hsl", "keyword": "hex", "tuple": "tuple", "list": "tuple",
             "ntuple": "tuple", "tuplesub": "tuple", "listsub": "tuple",
-            "rgba": "hex", "hsla": "hex", "rgba_tuple": "hex", "rgba_list": "hex"}
+            "rgba": "hex", "hsla": "hex", "rgba_tuple": "hex", "rgba_list": "hex",
+            "frac_tuple": "tuple", "float_tuple": "tuple", "str_tuple": "tuple", "pct_tuple": "tuple", "hsl_tuple": "tuple",
+            # not covered by the documented format mapping (C06 does not judge these)
+            "informal3": None, "rgb4": None, "rgbslash": None, "rgbslashpct": None, "informal4": None}
 
 _KW_BY_RGB = None
 
@@ -132,7 +142,35 @@ def spell(rgb, kind):
         return TupleSub((r, g, b))
     if kind == "listsub":
         return ListSub([r, g, b])
+    if kind == "frac_tuple":
+        return tuple(v / 255 for v in rgb)
+    if kind == "float_tuple":
+        # floats <= 1.0 are fractions of full scale and (h, 0.0/1.0, 0.0/1.0) reads as HSL: only channels >= 2
+        return tuple(float(v) for v in rgb) if min(rgb) >= 2 else None
+    if kind == "str_tuple":
+        return tuple(str(v) for v in rgb)
+    if kind == "pct_tuple":
+        p = pct_spelling(rgb)
+        return tuple(x.strip() for x in p[4:-1].split(",")) if p else None
+    if kind == "hsl_tuple":
+        return hsl_tuple(rgb)
+    if kind == "informal3":
+        return f"{r}, {g}, {b}"
     raise KeyError(kind)
+
+
+def hsl_tuple(rgb):
+    """(hue, s, l) with float s and l in [0,1] and 1 < hue <= 360 - the tuple the library reads as HSL - denoting exactly rgb
+    under the CSS reference reader."""
+    h, s, l = hsl_exact(rgb)
+    for digits in (4, 6, 9):
+        hs, ss, ls = _dec(h, digits), _dec(min(s, 1), digits + 2), _dec(l, digits + 2)
+        if not (1 < Fraction(hs) <= 360):
+            return None
+        css = f"hsl({hs}, {_dec(Fraction(ss) * 100, digits)}%, {_dec(Fraction(ls) * 100, digits)}%)"
+        if csscolor.accept_sets(csscolor.parse(css).rgb) == [{rgb[0]}, {rgb[1]}, {rgb[2]}]:
+            return (float(hs), float(ss), float(ls))
+    return None
 
 
 def spell_translucent(fg, alpha_text, kind):
@@ -146,6 +184,14 @@ def spell_translucent(fg, alpha_text, kind):
         return (r, g, b, float(alpha_text))
     if kind == "rgba_list":
         return [r, g, b, float(alpha_text)]
+    if kind == "rgb4":
+        return f"rgb({r}, {g}, {b}, {alpha_text})"
+    if kind == "rgbslash":
+        return f"rgb({r} {g} {b} / {alpha_text})"
+    if kind == "rgbslashpct":
+        return f"rgb({r} {g} {b} / {_dec(Fraction(alpha_text) * 100, 6)}%)"
+    if kind == "informal4":
+        return f"{r}, {g}, {b}, {alpha_text}"
     raise KeyError(kind)
 
 
@@ -163,7 +209,7 @@ def jsonable(x):
 
 
 def from_json(x, kind):
-    if kind in ("tuple", "rgba_tuple") and isinstance(x, list):
+    if kind in ("tuple", "rgba_tuple", "frac_tuple", "float_tuple", "str_tuple", "pct_tuple", "hsl_tuple") and isinstance(x, list):
         return tuple(x)
     if kind == "ntuple":
         return RGBTuple(*x)
